@@ -39,7 +39,9 @@ MANIFEST = {
                   "the harness (reads the private structures with -fno-access-control, prints expiries relative to the clock) and its "
                   "canonicalisation (every list sorted as strings on both sides). Modelled, not verified: manifests, key shares and plans are "
                   "reduced to their lifetimes; sender admission of handle_announce (PoW, throttle, lock-out: C21) is switched off in the "
-                  "harness and assumed passed in the model; announcing peers are other than the node itself (hypothesis OpsWf); the fetch "
+                  "harness and assumed passed in the model; whether an arriving manifest stands for the same content and key as a held chunk "
+                  "(repair C11-1) is a Boolean input of the model's ingest/announce (the differential run derives it from key/content ids it "
+                  "tracks for the harness's manifests); announcing peers are other than the node itself (hypothesis OpsWf); the fetch "
                   "scheduler (C24) is not modelled - a dispatched pending fetch is a provider probe plus a re-ingest of its manifest, both "
                   "operations of the model, so every schedule is a quantified history, and the differential run takes the implementation's "
                   "dispatch decisions as a validated hint; receive_chunk (replica arrival), uploads, the swarm role ledger and session keys are "
@@ -127,9 +129,14 @@ def extract():
     op("auditLocalIsGe", audit, r"now\s*(>=|>)\s*entry\.expires_at", "Node::audit_ttl")
     op("auditLocatorIsGe", audit, r"now\s*(>=|>)\s*locator\.expires_at", "Node::audit_ttl")
     op("auditContactIsGe", audit, r"now\s*(>=|>)\s*holder\.expires_at", "Node::audit_ttl")
+    # repair C11-1 (not a C05 obligation: the model merely follows whichever behaviour the tree has)
+    ingest = _body(nd, r"bool\s+Node::ingest_manifest\s*\([^)]*\)\s*\{", r"\n\}\n")
+    announce = _body(nd, r"void\s+Node::handle_announce\s*\(", r"\n\}\n")
+    present("ingestGuardsHeld", ingest, r"manifest_keeps_held_chunk_readable\s*\(", "Node::ingest_manifest")
+    present("announceGuardsHeld", announce, r"manifest_keeps_held_chunk_readable\s*\(", "Node::handle_announce")
     order = ["tickGateIsGe", "tickNotifiesInSweepLoop", "tickWithdrawsSelf", "tickSweepsDht", "tickPrunesManifests", "manifestPruneIsGe",
              "tickPrunesPlans", "shardSweepIsGe", "locatorSweepIsGe", "contactExpiredIsGe", "shardRecordExpiredIsGe", "auditLocalIsGe",
-             "auditLocatorIsGe", "auditContactIsGe"]
+             "auditLocatorIsGe", "auditContactIsGe", "ingestGuardsHeld", "announceGuardsHeld"]
     write_generated(PID, "\n".join(f"def {k} : Bool := {'true' if vals[k] else 'false'}" for k in order))
     # the imported models read their own generated constants
     import props.C01 as c01
@@ -195,17 +202,21 @@ class Track:
             return min(rem, self.mx)
         return None
 
-    def ingest(self, c, e_s=None):
+    def src(self, p_self=0.3):
+        """which manifest: the remote publisher's (`o`) or the one this node has cached for the id (`s`)"""
+        return " s" if self.rng.random() < p_self else self.rng.choice(["", " o"])
+
+    def ingest(self, c, e_s=None, src=None):
         e_s = self.expiry_s() if e_s is None else e_s
-        self.ops.append(f"ingest {c} {e_s}")
+        self.ops.append(f"ingest {c} {e_s}{self.src() if src is None else src}")
         self.note_manifest(e_s)
 
-    def announce(self, c, p, ttl=None, asg=0, e_s=None):
+    def announce(self, c, p, ttl=None, asg=0, e_s=None, src=None):
         e_s = self.expiry_s() if e_s is None else e_s
         t = self.note_manifest(e_s)
         if ttl is None:
             ttl = self.rng.choice([0, 1, self.mn, self.mx, (t or 1) - 1, (t or 1), (t or 1) + 1, -1])
-        self.ops.append(f"announce {c} {e_s} {p} {ttl} {asg}")
+        self.ops.append(f"announce {c} {e_s} {p} {ttl} {asg}{self.src() if src is None else src}")
         if t is not None:
             a = ttl if ttl > 0 else t
             a = max(self.mn, min(min(a, t), self.mx))
@@ -379,6 +390,40 @@ def gen_case(rng, shape, big=False) -> Case:
         t.tick()
         t.op("audit")
         t.op("drain")
+    elif shape == "held-foreign":
+        # a chunk the node holds + manifests for the same id that arrive without the chunk (repair C11-1): the
+        # remote publisher's (other key; same content for odd, other content for even ids) and the node's own
+        # re-encoded with another expiry, through ingest and announce, before / after the local deadline
+        c = rng.choice(chunks)
+        ttl = rng.choice([t.mn, t.mn + 1, t.mx])
+        if rng.random() < 0.3:
+            t.ingest(c, src=rng.choice([" o", ""]))          # learned remotely first: adopted, then displaced by the store
+        t.store(c, ttl)
+        for _ in range(rng.randint(2, 5)):
+            e_s = t.expiry_s(rng.choice([t.mn, t.eff(ttl) - 1, t.eff(ttl), t.eff(ttl) + 1, t.mx, t.mx + 3]))
+            src = rng.choice([" o", " o", " s", " s", ""])
+            if rng.random() < 0.5:
+                t.ingest(c, e_s, src=src)
+            else:
+                t.announce(c, rng.choice(peers), asg=rng.choice([0, 0, 1]), e_s=e_s, src=src)
+            k = rng.random()
+            if k < 0.3:
+                t.op(f"lookup {c}")
+            elif k < 0.5:
+                t.op("dump")
+            elif k < 0.7:
+                t.adv_aimed()
+        t.adv_to(t.local[c] + rng.choice([-1, 0, 0, 1]))
+        if rng.random() < 0.5:
+            t.ingest(c, src=rng.choice([" o", " s"]))
+        t.settle() if rng.random() < 0.7 else None
+        t.tick()
+        t.op("drain")
+        t.op("audit")
+        if rng.random() < 0.5:
+            t.store(c, t.mn)
+            t.announce(c, rng.choice(peers), e_s=t.expiry_s(t.mx), src=rng.choice([" o", " s"]))
+            t.op(f"lookup {c}")
     elif shape == "pending":
         for _ in range(rng.randint(1, 3)):
             t.announce(rng.choice(chunks), rng.choice(peers), asg=1)
@@ -417,7 +462,7 @@ def gen_case(rng, shape, big=False) -> Case:
     return Case(ops=t.ops, tag=shape)
 
 
-SHAPES = ["mixed", "lookup-before-tick", "same-tick", "gate-edge", "remote-mix", "overwrite", "reannounce", "pending", "mixed"]
+SHAPES = ["mixed", "lookup-before-tick", "same-tick", "gate-edge", "remote-mix", "overwrite", "reannounce", "pending", "held-foreign", "mixed"]
 
 
 def generate(ctx, budget):
@@ -462,9 +507,11 @@ def spec() -> Spec:
         search_budget={"quick": 2400, "thorough": 40000},
         rule="one real Node per case (TTL window from 7 small windows incl. 1..1, 2..3, 30..60; cleanup_interval 0/1/2/3/5 s; rebalance interval "
              "2/3/7/1800 s; wall-clock offset with sub-second phases 0 / 1 ns / 0.4 s / 0.999999999 s), 9 shapes (mixed, lookup-before-tick, "
-             "same-tick, gate-edge, remote-mix, overwrite, reannounce, pending) of 10-80 ops: local stores with TTL in {<=0, 1, min-1, min, min+1, "
+             "same-tick, gate-edge, remote-mix, overwrite, reannounce, pending, held-foreign) of 10-80 ops: local stores with TTL in {<=0, 1, min-1, min, min+1, "
              "max, max+1}, remote manifests (ingest / announce, with and without assigned shards) expiring at now + {-1, 0, 1, min-1, min, "
-             "min+1, mid, max, max+1, max+5} s incl. for ids that are also stored locally, re-announcements outliving the record, lookups and "
+             "min+1, mid, max, max+1, max+5} s incl. for ids that are also stored locally - the remote publisher's manifest (other key; same or other "
+             "content) or the node's own cached manifest re-encoded with another expiry (repair C11-1: adopted for a held chunk only when key "
+             "and content match) -, re-announcements outliving the record, lookups and "
              "provider probes between a deadline and the next tick, clock advances aimed at every known deadline and at the cleanup-interval "
              "edge (-1 ns, 0, +1 ns), several chunks expiring in one tick, ticks / drains / audits, an epilogue that runs past every deadline; "
              "distinct = sha256 of the op list; non-trivial = a local expiry was reported by a drain and a cached manifest present at one "
